@@ -327,6 +327,47 @@ def class_style(ctx):
             pass
 
 
+def vis_then_replace(ctx):
+    """A Signal's `vis` is edited on the held object (outside the property's alphabet: the edit itself is not judged), then its name is
+    assigned again — with an object of every kind, or with the very same object: from there on the name is in exactly one view, the
+    one of what it now holds (a Signal: by the visibility it has now), and what was replaced is in none (seed C18-r8-2: the old
+    object looked for in the view its *present* visibility selects). Exhaustive over first kind x edit x second kind x setattr/add."""
+    rep = ctx.rep
+    views = {"port": "ports", "signal": "signals", "instance": "instances", "instarray": "instarrays", "instbundle": "instbundles", "bundle": "bundles"}
+    for first in ("signal", "port"):
+        for edit in (True, False):
+            for second in M_KINDS + ["same"]:
+                for how in ("setattr", "add"):
+                    case = {"stream": "vis_then_replace", "first": first, "edited": edit, "second": second, "how": how}
+                    rep.count("vis_then_replace", json.dumps(case))
+                    m = h.Module(name="V")
+                    old = make_obj(first, "x")
+                    m.add(old)
+                    if edit:
+                        old.vis = h.Visibility.INTERNAL if first == "port" else h.Visibility.PORT
+                    new = old if second == "same" else make_obj(second, None if how == "setattr" else "x")
+                    try:
+                        if how == "setattr":
+                            m.x = new
+                        else:
+                            if second == "same":
+                                continue  # add() of an object that is held already is refused: not this family's business
+                            m.add(new)
+                    except Exception as ex:  # noqa
+                        rep.fail("corr", case, f"the re-assignment raised {type(ex).__name__}: {str(ex)[:120]}")
+                        continue
+                    if isinstance(new, h.Signal):
+                        kind = "port" if new.vis == h.Visibility.PORT else "signal"
+                    else:
+                        kind = second
+                    held = {k: getattr(m, v).get("x") for k, v in views.items()}
+                    wrong = [k for k, o in held.items() if (o is not None) != (k == kind) or (o is not None and o is not new)]
+                    if wrong or m.get("x") is not new or m.namespace.get("x") is not new:
+                        rep.fail("pred", case, {"why": f"after the re-assignment `x` should be held in `{views[kind]}` alone",
+                                                "views_holding_x": [views[k] for k, o in held.items() if o is not None],
+                                                "holding_the_replaced_object": [views[k] for k, o in held.items() if o is old and old is not new]})
+
+
 def run(ctx):
     rng = ctx.rng
     ctx.rep.extra["rule"] = (
@@ -341,6 +382,7 @@ def run(ctx):
         cases.append(gen_case(rng, cfg, rng.randint(3, maxops), with_elab=(k % 5 == 0)))
     S.nontrivial = lambda c: len({(o.get("key") or o.get("name")) for o in c["ops"] if o["op"] in ("setattr", "add")}) < sum(1 for o in c["ops"] if o["op"] in ("setattr", "add"))
     S.run(ctx, cases)
+    vis_then_replace(ctx)
     class_style(ctx)
 
 
